@@ -142,7 +142,9 @@ class ContentProvider(object):
     def write(self, dst):
         fs.ensure_path(os.path.dirname(dst))
         # Clean Spec Content when writing it down to disk before uploading
-        content = "\n".join(self._clean_content())
+        content = self._clean_content()
+        if not isinstance(content, six.string_types):
+            content = "\n".join(content)
         content = content.encode("utf-8") if six.PY3 else content
         with open(dst, "wb") as f:
             f.write(content)
